@@ -12,6 +12,7 @@ import (
 
 	"github.com/FollowTheProcess/spok/file"
 
+	"verifharness/internal/bin"
 	"verifharness/internal/ev"
 	"verifharness/internal/pool"
 )
@@ -331,6 +332,24 @@ func c17Check(tier string) int {
 			run.Report(v)
 		}
 	})
+	binCalls := c17Binary(run)
+	run.Set("binary_invocations", binCalls)
+	if f := os.Getenv("VERIF_C17_SCHED"); f != "" {
+		var sp struct {
+			Calls int64          `json:"calls"`
+			Execs int64          `json:"execs"`
+			Viol  []ev.Violation `json:"viol"`
+		}
+		data, err := os.ReadFile(f)
+		if err != nil || json.Unmarshal(data, &sp) != nil {
+			ev.Fatal("C17 schedule part result unreadable: %v", err)
+		}
+		for _, v := range sp.Viol {
+			run.Report(v)
+		}
+		run.Set("schedule_part", map[string]any{"find_calls": sp.Calls, "schedules_explored": sp.Execs,
+			"what": "file.Find (mechanically rewritten: go statements, channels, sync and sync/atomic operations are scheduling points) for every chain of depth 3 x start x stop at or above start, under EVERY interleaving: same, correct answer on all of them, no deadlock / leak / panic. Find is sequential today, so this is one schedule per call"})
+	}
 	for _, s := range total.Samples {
 		run.Sample(s)
 	}
@@ -380,4 +399,67 @@ func c17Replay(path string) int {
 	}
 	fmt.Println("no violation on replay")
 	return 0
+}
+
+// c17Binary: discovery as the command line does it (start = cwd, stop = $HOME), with
+// plain paths and with $HOME / the working directory reached through a symbolic link.
+// Every subset of {a directory above home, home, two levels below} holding a spokfile
+// x every start level x both path styles, through `spok --show`.
+func c17Binary(run *ev.Run) int64 {
+	root := filepath.Join(pool.Scratch, "c17bin")
+	t := bin.Tree{Root: root}
+	var calls int64
+	for mask := 0; mask < 16; mask++ {
+		t.Reset()
+		t.Mkdir("real/home/L1/L2")
+		os.Symlink(filepath.Join(root, "real/home"), filepath.Join(root, "homelink"))
+		os.Lchown(filepath.Join(root, "homelink"), 65534, 65534)
+		levels := []string{"real", "real/home", "real/home/L1", "real/home/L1/L2"} // index 0 is above home
+		for i, l := range levels {
+			if mask&(1<<i) != 0 {
+				t.File(l+"/spokfile", fmt.Sprintf("# level %d\ntask level%s() {\n    echo x\n}\n", i, string(rune('a'+i))))
+			}
+		}
+		for start := 1; start <= 3; start++ {
+			for _, style := range []string{"real", "link"} {
+				home := filepath.Join(root, "real/home")
+				cwd := filepath.Join(root, levels[start])
+				if style == "link" {
+					home = filepath.Join(root, "homelink")
+					cwd = filepath.Join(home, strings.TrimPrefix(levels[start], "real/home"))
+				}
+				o := bin.Run(cwd, home, nil, "--show")
+				calls++
+				want := -1
+				for i := start; i >= 1; i-- {
+					if mask&(1<<i) != 0 {
+						want = i
+						break
+					}
+				}
+				key := fmt.Sprintf("binary mask=%d start=%d style=%s", mask, start, style)
+				desc := fmt.Sprintf("spokfiles at levels %04b (bit 0 = the directory above $HOME), cwd = level %d, $HOME %s", mask, start, map[string]string{"real": "a plain path", "link": "a symbolic link, cwd below it"}[style])
+				c := map[string]any{"mask": mask, "start": start, "style": style}
+				if o.Died() {
+					run.Report(ev.Violation{Key: key, Class: "does-not-terminate", What: desc + fmt.Sprintf(": spok died or hung (signal=%s timeout=%v)", o.Signal, o.TimedOut), Case: c})
+					continue
+				}
+				if want < 0 {
+					if o.Exit == 0 {
+						run.Report(ev.Violation{Key: key, Class: "found-outside-range", What: desc + ": no spokfile between cwd and $HOME, but spok listed " + firstLine(o.Stdout), Case: c})
+					}
+					continue
+				}
+				if o.Exit != 0 {
+					run.Report(ev.Violation{Key: key, Class: "enclosing-spokfile-missed", What: desc + fmt.Sprintf(": the spokfile at level %d should be found, spok said: %s", want, firstLine(strings.TrimSpace(o.Stderr))), Case: c})
+					continue
+				}
+				if !strings.Contains(o.Stdout, "level"+string(rune('a'+want))) {
+					run.Report(ev.Violation{Key: key, Class: "wrong-spokfile", What: desc + fmt.Sprintf(": expected the tasks of the spokfile at level %d, got %s", want, clip(o.Stdout)), Case: c})
+				}
+			}
+		}
+	}
+	os.RemoveAll(root)
+	return calls
 }
